@@ -65,7 +65,7 @@ def t2(F, rep):
         st = b.term(sb)
         if st["k"] == "switch":
             d = flow.describe(b, st["d"], names=True)
-            if d == "Lt(var(lit_len), K256)":
+            if d in ("Lt(var(lit_len), K256)", "Le(var(lit_len), K255)"):
                 lit_sw = (sb, st)
             if d == "Eq(var(lit_len), K256)":
                 eob_sw = (sb, st)
